@@ -160,9 +160,34 @@ func (c *Check) resetConstants(rule string) {
 		}
 		bad := 0
 		np := 0
+		// two-pass form: the closure gathers the reset contexts and its parent stores every gathered one in a loop
+		parentStores := false
+		if par := b.Closure.Parent; par != nil {
+			for _, e := range c.P.SummaryOf(par).Effs {
+				if e.Kind == "store" && e.Op == "Set" && e.Family == "0x08" && e.InLoop && len(e.Chain) <= 1 {
+					parentStores = true
+				}
+			}
+		}
 		for _, pa := range c.P.PathsOf(b.Closure) {
 			np++
 			_, ok := c.pathHasEffect(b.Closure, pa, func(e *Eff) bool { return e.Kind == "store" && e.Op == "Set" && e.Family == "0x08" })
+			if !ok && parentStores {
+				for _, ev := range pa.Events {
+					if ev.Kind == EvAssign && ev.Val != nil && ev.Val.Op == "append" && ev.Var != nil && ev.Var.Pos() < b.Closure.Body.Pos() {
+						ok = true // gathered for the parent's storing loop
+					}
+				}
+			}
+			if !ok {
+				// a context left as it is must already hold the reset values
+				af := pa.AllFacts()
+				X := atom(b.ValP)
+				if hasEq(af, field("RequestContext", "State", X), "#types.PAUSED", false) && hasEq(af, field("RequestContext", "BatchState", X), "#types.BATCHCOMPLETED", false) &&
+					hasEq(af, field("RequestContext", "BatchRequestCount", X), "#0", false) && hasEq(af, field("RequestContext", "BatchResponseCount", X), "#0", false) {
+					ok = true
+				}
+			}
 			if !ok {
 				bad++
 			}
